@@ -12,7 +12,7 @@ def run(ck):
     # negative controls: a resolution that forgets its accumulated phase / the claim that no sign is ever needed must be
     # rejected on the small alphabet - otherwise SameDenotation would be vacuous
     ck.cov["negative_controls"] = []
-    for inv in ("ControlPhaseForgotten", "ControlNeverNegative"):
+    for inv in ("ControlPhaseForgotten", "ControlNeverNegative") if not ck.selftest else ():
         ncfg = os.path.join(ck.scratch, f"MC_OddposN_{inv}.cfg")
         open(ncfg, "w").write("SPECIFICATION Spec\nCONSTANTS\n  Labels = {1, 2, 3}\n  MaxLen = 3\n"
                               f"INVARIANT {inv}\nCHECK_DEADLOCK FALSE\n")
@@ -20,7 +20,7 @@ def run(ck):
         ck.cov["models"][-1]["negative_control"] = True    # stops at the expected counterexample, hence not "complete"
         hit = f"Invariant {inv} is violated" in r["out"]
         ck.cov["negative_controls"].append({"instance": "Labels 1..3, MaxLen 3", "invariant": inv, "violated_as_expected": hit})
-        if not hit and not ck.selftest:    # (the self-test of the trace binding skips the pure models)
+        if not hit:
             ck.problems.append(f"negative control {inv} was not rejected by MC_Oddpos")
     q = ck.tier == "quick"
     # Machine.tla, chain instance: three tensors r1 - r2 - r3 (all charges, sparsity patterns and pending signs of the pool);
